@@ -58,3 +58,11 @@ Example C05_nonvacuous :
   patch _ H deq false true [1;2;3;4] (mk [Copy 3 2; Lit [9]] [2;3;9]) = PErrBounds /\
   patch _ H deq true true [1;2;3;4] (mk [Copy 1 2] [2;3]) = PPanic.
 Proof. repeat split; vm_compute; reflexivity. Qed.
+
+(** The model the theorems above are about is the translation of src/delta.rs Delta::validate as it is now: the function
+    generated from the source by tools/gen_logic.py (Gen/DeltaVGen.v) equals, on every input, Model/Delta.v validate
+    (statement: Proofs/TieDeltaV.v, [delta_validate_model_is_translation]). *)
+Require Copia.Proofs.TieDeltaV.
+Theorem C05_model_is_translation_of_source : TieDeltaV.delta_validate_model_is_translation.
+Proof. exact TieDeltaV.delta_validate_model_is_translation_holds. Qed.
+Print Assumptions C05_model_is_translation_of_source.
